@@ -96,7 +96,7 @@ func forTwoDeviations(it *corpus.Item, fn func(src, why string)) {
 // wideItems: the widest corpus (rules, 2-paths, nullable combinations, 3-paths, pairs of positions) in
 // baseline layout and with unique trivia only — every check runs it besides its own deviation space.
 func wideItems(f *corpus.Fam, validOnly bool, fn func(it *corpus.Item, src, why string)) {
-	for _, it := range f.Items(5) {
+	for _, it := range f.Items(6) {
 		if !it.ScanOK || validOnly && !it.Valid {
 			continue
 		}
@@ -129,7 +129,7 @@ func validItems(f *corpus.Fam, level int) []*corpus.Item {
 func c02Run(c *core.Ctx) {
 	level := 2
 	if c.Thorough() {
-		level = 5
+		level = 6
 	}
 	for _, fam := range []string{"php7", "php5"} {
 		f := corpus.MustFam(fam)
